@@ -4,7 +4,10 @@ A *program spec* is a JSON value
 
     {"root": "C"|"F"|"M"|"K",            kind of the root level (class __init__, function, method, classmethod)
      "levels": [[link, own, op], ...],   one entry per level, top (root) first
-     "layout": [[...], ...] | "lin" | "pt" | "mixin",   inheritance layout of the first run of `super` links
+     "layout": [[...], ...] | "lin" | "pt" | "mixin" | {"bases": [[...], ...], "blank": j},
+                                          inheritance layout of the first run of `super` links; the dict form is a
+                                          layout over the run's classes PLUS one class without __init__ ("blank"),
+                                          which sits at position j of the method resolution order
      "scheme": "diff" | "same"}          default/type scheme (all levels differ / all levels agree)
 
 * link  - how the level forwards its **kwargs to the next level (documented AST-resolver patterns), or a terminal
@@ -15,7 +18,11 @@ A *program spec* is a JSON value
           ("Ab" = a required, b defaulted).
 * op    - what else the level does with a name: "" | "P:a" kwargs.pop("a", d) | "G:a" kwargs.get("a", d) |
           "N:a" kwargs.pop("a") without default | "H:a" the name hard-coded at the forwarding call | "Hp" the first
-          positional parameter of the callee hard-coded at the forwarding call.
+          positional parameter of the callee hard-coded at the forwarding call |
+          "h:a" the name hard-coded at the forwarding call AFTER the unpacking: callee(**kwargs, a=value) |
+          inline forms - the kwargs.pop/get expression is itself an argument of the forwarding call:
+          "I:a" callee(<other name>=kwargs.pop("a", d), **kwargs) | "J:a" the same with kwargs.get |
+          "S:a" callee(a=kwargs.pop("a", d), **kwargs) | "Q:a" callee(kwargs.pop("a", d), **kwargs) (first positional).
 
 Nothing here imports jsonargparse.
 """
@@ -73,6 +80,52 @@ TERMINALS = ["T0", "T1"]
 DEFERRED = {"attr_method", "attr_prop", "dict_update", "dict_literal"}
 DICT_LINKS = {"dict_update", "dict_literal"}
 ROOTS = ["C", "F", "K", "M"]
+
+
+# ---------------------------------------------------------------------------------------------------
+# the per-level op, decoded (every consumer goes through these accessors)
+
+
+def other(name):
+    return NAMES[1 - NAMES.index(name)]
+
+
+def op_popget(op):
+    """(form, name, inline) of the level's kwargs.pop/get, or None.  form: "P" pop with default, "G" get with default,
+    "N" pop without default; inline: the expression is an argument of the forwarding call, not its own statement."""
+    if len(op) == 3:
+        if op[0] in "PGN":
+            return op[0], op[2], False
+        if op[0] in "ISQ":
+            return "P", op[2], True
+        if op[0] == "J":
+            return "G", op[2], True
+    return None
+
+
+def op_hard(op):
+    """The name given as a hard-coded keyword at the forwarding call, or None."""
+    if len(op) == 3:
+        if op[0] in "HhS":
+            return op[2]
+        if op[0] in "IJ":
+            return other(op[2])
+    return None
+
+
+def op_hard_positional(op):
+    """The first positional parameter of the callee is given at the forwarding call."""
+    return op == "Hp" or op[:1] == "Q"
+
+
+def op_gives(op):
+    """The forwarding call gives something besides **kwargs."""
+    return op_hard(op) is not None or op_hard_positional(op)
+
+
+def op_inline(op):
+    pg = op_popget(op)
+    return bool(pg and pg[2])
 
 
 # ---------------------------------------------------------------------------------------------------
@@ -148,14 +201,25 @@ def mro_layouts(k, max_bases=2):
     return found
 
 
-def layouts_for(root, links, rich, aux=True):
+def blank_layouts(k):
+    """Every layout of k+1 classes (mro_layouts) with, in turn, each one of them being a class WITHOUT __init__: the k
+    classes of the run keep their order, the blank class sits at position j of the method resolution order
+    (j = 0: the root class itself defines no __init__; j = k: a base without __init__ at the end)."""
+    return [{"bases": lay, "blank": j} for lay in mro_layouts(k + 1) for j in range(k + 1)]
+
+
+def layouts_for(root, links, rich, aux=True, blank=False):
     """Layout variants of one link path.  "lin" always; for a run of >= 2 classes also a pass-through class without
-    __init__ and a leading mixin without __init__; for a run of >= 3 classes every multiple-inheritance layout."""
+    __init__ and a leading mixin without __init__; for a run of >= 3 classes every multiple-inheritance layout.
+    blank=True (pure hierarchies only): instead, "lin" + every blank_layouts() member."""
     run = first_super_run(root, links)
     if run is None:
         return ["lin"]
-    out = ["lin", "pt", "mixin"] if aux else ["lin"]
     k = run[1] - run[0] + 1
+    if blank:
+        assert root == "C" and run[0] == 0
+        return ["lin"] + blank_layouts(k)
+    out = ["lin", "pt", "mixin"] if aux else ["lin"]
     if k >= 3:
         lays = mro_layouts(k)[1:]
         if not rich:
@@ -177,18 +241,23 @@ def behaviours(size):
     """List of (own, op).  Sizes: "full" > "mid" > "small" > "tiny"."""
     out = []
     if size == "full":
-        ops = [""] + [f"{o}:{n}" for o in "PGNH" for n in NAMES] + ["Hp"]
+        ops = [""] + [f"{o}:{n}" for o in "PGNHhIJSQ" for n in NAMES] + ["Hp"]
         for own in _own_combos(NAMES):
             for op in ops:
-                if op[:1] in ("P", "G", "N") and op[2] in own.lower():
+                pg = op_popget(op)
+                if pg and pg[1] in own.lower():
                     continue  # popping a name the signature already binds is dead code
                 out.append((own, op))
     elif size == "mid":
         out = [("", ""), ("a", ""), ("A", ""), ("", "P:a"), ("", "G:a"), ("", "N:a"), ("", "H:a")]
         out += [("a", "H:a"), ("A", "H:a"), ("", "Hp")]
         out += [("b", ""), ("B", ""), ("ab", ""), ("Ab", ""), ("b", "P:a"), ("b", "G:a"), ("b", "H:a"), ("a", "P:b")]
+        # hard-coded after the unpacking; pop/get written inline as an argument of the forwarding call
+        out += [("", "h:a"), ("a", "h:a"), ("", "I:b"), ("", "J:b"), ("", "S:a"), ("", "Q:a"), ("", "Q:b")]
     elif size == "med":
         out = [("", ""), ("a", ""), ("A", ""), ("", "P:a"), ("", "G:a"), ("", "N:a"), ("", "H:a"), ("a", "H:a"), ("", "Hp"), ("b", "")]
+    elif size == "small+":
+        out = [("", ""), ("a", ""), ("A", ""), ("", "P:a"), ("", "G:a"), ("", "H:a"), ("", "h:a"), ("", "I:b")]
     elif size == "small":
         out = [("", ""), ("a", ""), ("A", ""), ("", "P:a"), ("", "G:a"), ("", "H:a")]
     elif size == "tiny4":
@@ -206,10 +275,14 @@ def level_choices(link, size):
     for own, op in behaviours(size):
         if link == "T0" and op:
             continue  # no **kwargs: nothing to pop / forward
-        if link == "T1" and op[:1] == "H":
+        if link == "T1" and op_gives(op):
             continue  # nothing is forwarded
-        if op == "Hp" and link in DICT_LINKS:
+        if op_hard_positional(op) and link in DICT_LINKS:
             continue
+        if op_inline(op) and link in DEFERRED:
+            continue  # the forwarding call of a deferred use is in another scope: no `kwargs` there
+        if op[:1] == "h" and link == "dict_update":
+            continue  # dict(k=v) + update(**kwargs): there is no position after the unpacking
         out.append((own, op))
     return out
 
@@ -219,14 +292,15 @@ def needs_same_scheme(levels):
     name that is popped / got somewhere has a second site (the two uses then agree instead of disagreeing)."""
     sites, popget = {}, set()
     for _, own, op in levels:
-        for n in set(own.lower()) | ({op[2]} if len(op) == 3 and op[0] != "H" else set()):
+        pg = op_popget(op)
+        for n in set(own.lower()) | ({pg[1]} if pg else set()):
             sites[n] = sites.get(n, 0) + 1
-        if len(op) == 3 and op[0] in "PG":
-            popget.add(op[2])
+        if pg and pg[0] in "PG":
+            popget.add(pg[1])
     return any(sites[n] > 1 for n in popget)
 
 
-def programs(depths, sizes, rich_layouts=False, roots=ROOTS, link_filter=None, same_scheme_depths=(1, 2, 3, 4, 5), aux_layouts=True):
+def programs(depths, sizes, rich_layouts=False, roots=ROOTS, link_filter=None, same_scheme_depths=(1, 2, 3, 4, 5), aux_layouts=True, blank=False):
     """Enumerate program specs, simplest first: by depth, then skeleton, then behaviours.
 
     depths: iterable of depths; sizes: {depth: alphabet size name}."""
@@ -237,7 +311,7 @@ def programs(depths, sizes, rich_layouts=False, roots=ROOTS, link_filter=None, s
                 if link_filter and not link_filter(root, links):
                     continue
                 per_level = [level_choices(link, size) for link in links]
-                lays = layouts_for(root, links, rich_layouts, aux_layouts)
+                lays = layouts_for(root, links, rich_layouts, aux_layouts, blank)
                 for combo in itertools.product(*per_level):
                     levels = [[links[i], combo[i][0], combo[i][1]] for i in range(depth)]
                     same = depth in same_scheme_depths and needs_same_scheme(levels)
@@ -314,7 +388,7 @@ def render(spec):
     for i in range(n):
         link = links[i]
         if kinds[i] == "C" and link == "super":
-            if run and run[0] <= i < run[1] and isinstance(layout, list):
+            if run and run[0] <= i < run[1] and isinstance(layout, (list, dict)):
                 continue  # handled by the explicit layout below
             if run and i == run[0] and layout == "pt":
                 p = cls(f"Pass{i}")
@@ -342,6 +416,17 @@ def render(spec):
         for off, bases in enumerate(layout):
             c = cls(owner[run[0] + off])
             c.bases = [owner[run[0] + b] for b in bases] + c.bases
+    root_class = "C0"
+    if run and isinstance(layout, dict):
+        # the run's classes plus one class without __init__ at position `blank` of the method resolution order
+        assert root == "C" and run[0] == 0, "blank layouts are generated for pure hierarchies only"
+        order = [owner[j] for j in range(run[0], run[1] + 1)]
+        order.insert(layout["blank"], "Blank")
+        cls("Blank").members.append("    blank_marker = 1\n")
+        for pos, bases in enumerate(layout["bases"]):
+            c = cls(order[pos])
+            c.bases = [order[b] for b in bases] + c.bases
+        root_class = order[0]
 
     # ---- levels
     for i in range(n):
@@ -358,24 +443,36 @@ def render(spec):
         sig_txt = ", ".join(([first] if first else []) + sig)
         body = []
         logged = [f"{name}={name}" for name, _ in params]
-        if op[:1] in ("P", "G", "N"):
-            name = op[2]
-            if op[0] == "N":
+        pg = op_popget(op)
+        inline_expr = None
+        if pg and not pg[2]:
+            form, name, _ = pg
+            if form == "N":
                 body.append(f'v_{name} = kwargs.pop("{name}")')
             else:
-                fn = "pop" if op[0] == "P" else "get"
+                fn = "pop" if form == "P" else "get"
                 body.append(f'v_{name} = kwargs.{fn}("{name}", {pdefault(i, name, scheme)})')
             logged.append(f"{name}=v_{name}")
+        elif pg:
+            form, name, _ = pg
+            fn = "pop" if form == "P" else "get"
+            inline_expr = f'kwargs.{fn}("{name}", {pdefault(i, name, scheme)})'
         body.append(f"_log('L{i}'" + "".join(", " + x for x in logged) + ")")
-        # hard-coded arguments at the forwarding call
-        hk = ""
-        if op[:1] == "H" and op != "Hp":
-            name = op[2]
-            # `a=a` (the level's own parameter passed on by name) where the call is in the same scope
-            val = name if name in own.lower() and link not in DEFERRED else str(hard_value(i, name))
-            hk = f"{name}={val}, "
-        elif op == "Hp":
-            hk = f"{hard_value(i, 'a')}, "
+        # arguments given at the forwarding call besides **kwargs: `hk` is written before the unpacking, `ha` after it
+        hk = ha = ""
+        hard = op_hard(op)
+        if hard is not None:
+            if inline_expr:
+                val = inline_expr  # the value is the pop/get expression itself (evaluated before **kwargs is unpacked)
+            else:
+                # `a=a` (the level's own parameter passed on by name) where the call is in the same scope
+                val = hard if hard in own.lower() and link not in DEFERRED else str(hard_value(i, hard))
+            if op[0] == "h":
+                ha = f", {hard}={val}"
+            else:
+                hk = f"{hard}={val}, "
+        elif op_hard_positional(op):
+            hk = (inline_expr or str(hard_value(i, "a"))) + ", "
         extra_members = []
         if not terminal:
             nxt = i + 1
@@ -398,11 +495,11 @@ def render(spec):
                     body.append(f"self._kw{i}.update(**kwargs)")
                     use = f"{callee}(**self._kw{i})"
                 elif link == "dict_literal":
-                    body.append(f"self._kw{i} = dict({hk}**kwargs)")
+                    body.append(f"self._kw{i} = dict({hk}**kwargs{ha})")
                     use = f"{callee}(**self._kw{i})"
                 else:
                     body.append(f"self._kw{i} = kwargs")
-                    use = f"{callee}({hk}**self._kw{i})"
+                    use = f"{callee}({hk}**self._kw{i}{ha})"
                 if link == "attr_prop":
                     body.append(f"_defer(self, 'use{i}')")
                     extra_members.append(f"    @property\n    def use{i}(self):\n        return {use}\n")
@@ -411,10 +508,10 @@ def render(spec):
                     extra_members.append(f"    def use{i}(self):\n        return {use}\n")
             elif link == "inst_method":
                 body.append(f"inst = C{nxt}()")
-                body.append(f"{ret}{callee}({hk}**kwargs)")
+                body.append(f"{ret}{callee}({hk}**kwargs{ha})")
             elif link == "ncc":
                 body.append(f"if _sel({i}) == 1:")
-                body.append(f"    {ret}{callee}({hk}**kwargs)")
+                body.append(f"    {ret}{callee}({hk}**kwargs{ha})")
                 body.append("else:")
                 body.append(f"    {ret}side{i}(**kwargs)")
                 funcs.append(
@@ -423,7 +520,7 @@ def render(spec):
                 )
                 sides.append(i)
             elif link in ("cc_if", "cc_elifnot", "cc_else"):
-                live = f"{ret}{callee}({hk}**kwargs)"
+                live = f"{ret}{callee}({hk}**kwargs{ha})"
                 d1 = f"{ret}decoy{i}x(**kwargs)"
                 d2 = f"{ret}decoy{i}y(**kwargs)"
                 if link == "cc_if":
@@ -441,7 +538,7 @@ def render(spec):
                         f"    _log('decoy{i}{suffix}', a=a, b=b)\n"
                     )
             else:
-                body.append(f"{ret}{callee}({hk}**kwargs)")
+                body.append(f"{ret}{callee}({hk}**kwargs{ha})")
         body_txt = "".join("        " + b + "\n" for b in body) if kind != "F" else "".join("    " + b + "\n" for b in body)
         if kind == "F":
             funcs.append(f"def f{i}({sig_txt}):\n{body_txt}")
@@ -478,7 +575,7 @@ def render(spec):
     for name in list(classes):
         emit(name)
     if root == "C":
-        out.append("def _invoke(**kw):\n    return C0(**kw)\n\n\nROOT = (C0, None)\n")
+        out.append(f"def _invoke(**kw):\n    return {root_class}(**kw)\n\n\nROOT = ({root_class}, None)\n")
     elif root == "F":
         out.append("def _invoke(**kw):\n    return f0(**kw)\n\n\nROOT = (f0, None)\n")
     elif root == "K":
